@@ -1897,6 +1897,7 @@ def main(tier: str, seed: int, replay: str | None = None) -> int:
             "log_tail": log}, has_input=False)
     rep.proof_stage()
     rep.proof_stage("C12_handon")   # C12_plugged extended to tools that hand an input on (`1`, `1: T`)
+    rep.proof_stage("C12_handon_inline")   # ... and C12_inline: the graph is the flow of the inlined expression
     rng = random.Random(seed)
     acc = Counter()
     shapes = Counter()
